@@ -996,7 +996,9 @@ dispatch_write(dispatch_fd_t fd, dispatch_data_t data, dispatch_queue_t queue,
 			int err = fd_entry->err;
 			dispatch_async(queue, ^{
 				_dispatch_fd_debug("convenience handler invoke", fd);
-				handler(NULL, err);
+				// Nothing was written: all of the data is unwritten
+				handler(data, err);
+				_dispatch_io_data_release(data);
 			});
 			_dispatch_release(queue);
 			return;
